@@ -14,7 +14,14 @@ mkdir -p .cache
 if [ ! -x .cache/vinstr ] || [ cmd/vinstr/main.go -nt .cache/vinstr ]; then
   go build -o .cache/vinstr.$$ ./cmd/vinstr >&2 && mv .cache/vinstr.$$ .cache/vinstr
 fi
-.cache/vinstr -repo "$VERIF_REPO" -target /repo -verif "$VERIF_ROOT" -out "$work/instr" >&2
+# the file storage of goleveldb (a dependency of bigtable/bttest) is instrumented too, so that the file-system
+# calls leveldb itself makes while it creates / opens / rotates a database are crash points of the C08 enumeration
+ldb=$(cd "$VERIF_REPO/bigtable" && go list -m -f '{{.Dir}}' github.com/syndtr/goleveldb 2>/dev/null || true)
+extra=""
+if [ -n "$ldb" ] && [ -f "$ldb/leveldb/storage/file_storage.go" ]; then
+  extra="$ldb/leveldb/storage/file_storage.go,$ldb/leveldb/storage/file_storage_unix.go"
+fi
+.cache/vinstr -repo "$VERIF_REPO" -target /repo -verif "$VERIF_ROOT" -out "$work/instr" -extra-os "$extra" >&2
 # key: instrumented sources + all repo go files/go.mod of the three modules + verif sources
 key=$( { find "$work/instr" -type f | sort | xargs sha256sum | sed "s#$work##";
          find "$VERIF_REPO/bigtable" "$VERIF_REPO/storage" -name '*.go' -o -name 'go.mod' | sort | xargs sha256sum;
